@@ -292,6 +292,20 @@ def check_nodes(case, rec):
     bad = np.abs(N[:, 0, :] - eye)
     j, i = np.unravel_index(np.argmax(bad), bad.shape)
     rec.close(bad, scale, TOL, "kronecker", f"{name}: N_{i}(x_{j}) = {N[j, 0, i]!r}, expected {eye[j, i]};", **sig)
+    # every table evaluated at the nodes *as Get_Local_Coords returns them* (an integer array for the types whose nodes sit on
+    # -1 / 0 / 1) against the same evaluation at float points: the evaluator must not inherit the dtype of its points
+    lc_raw = np.asarray(g.Get_Local_Coords())
+    rec.label("local_coords_dtype:" + str(lc_raw.dtype))
+    for k, T in enumerate(raw_tables(g, hermite)):
+        T = np.asarray(T, dtype=object)
+        if T.size == 0:
+            continue
+        v_raw = np.asarray(_GroupElem._Eval_Functions(T, lc_raw))
+        v_flt = np.asarray(_GroupElem._Eval_Functions(T, lc_raw.astype(float)), float)
+        sc = max(1.0, float(np.abs(v_flt).max()))
+        rec.close(np.asarray(v_raw, float) - v_flt, sc, TOL, "evaluator_point_dtype",
+                  f"{name}: table of order {k} evaluated at Get_Local_Coords() (dtype {lc_raw.dtype}) differs from its evaluation at "
+                  "the same points given as floats;", **sig)
     # same thing on the exact polynomials (separates table content from the evaluator)
     Nex = np.array([[float(Pl[0][i][0](*[float(v) for v in lc[j]])) for i in range(nPe)] for j in range(nPe)])
     bad = np.abs(Nex - eye)
